@@ -430,6 +430,85 @@ def ts_worker(task):
     return dict(variant=variant, n=n, viols=viols, sample=sample)
 
 
+XW = [0.0, 5e-324, 1e-310, 1e-162, 1.0, 1e150, 1e300]
+XV = [0.0, 5e-324, 1e-162, 1e-110, 1.0, -1e150, 1e150, 1e308]
+
+
+def extreme_worker(first):
+    """sequences over weights / values / time spans whose products and
+    quotients underflow or overflow: no registration and no query may raise,
+    n / min / max stay exact, a variance is not negative, and a mean of
+    finite observations with a positive total weight is not NaN"""
+    from pydsol.core import statistics as S
+    n = 0
+    viols = []
+    pairs = [(w, v) for w in XW for v in XV]
+    for k in (0, 1, 2):
+        rests = itertools.product(pairs, repeat=k) if k < 2 else \
+            itertools.product(pairs[::3], repeat=2)
+        for rest in rests:
+            seq = (first,) + tuple(rest)
+            for variant in ("plain", "event"):
+                n += 1
+                t = make("w", variant)
+                t = t[0] if isinstance(t, tuple) else t
+                try:
+                    for w, v in seq:
+                        t.register(w, v)
+                except Exception as ex:  # noqa
+                    viols.append(("extreme:register-raised:"
+                                  + type(ex).__name__, [list(x) for x in seq],
+                                  variant))
+                    continue
+                snap = dict(zip([g[0] for g in WG], snapshot(t)))
+                for g, v in snap.items():
+                    if isinstance(v, tuple) and v and v[0] == "raised":
+                        viols.append(("extreme:getter-raised:%s:%s" % (g,
+                                                                        v[1]),
+                                      [list(x) for x in seq], variant))
+                    elif g.startswith(("wvar", "wsd")) and \
+                            isinstance(v, float) and v < 0:
+                        viols.append(("extreme:negative-variance:%s" % g,
+                                      [list(x) for x in seq], variant, v))
+                vs = [v for _, v in seq]
+                if snap["n"] != len(seq) or snap["min"] != min(vs) or \
+                        snap["max"] != max(vs):
+                    viols.append(("extreme:n-min-max",
+                                  [list(x) for x in seq], variant))
+                tot = sum(w for w, _ in seq)
+                if tot > 0 and math.isfinite(tot) and \
+                        isinstance(snap["wmean"], float) and \
+                        math.isnan(snap["wmean"]) and all(
+                            abs(v) <= 1e150 for v in vs):
+                    viols.append(("extreme:mean-is-nan",
+                                  [list(x) for x in seq], variant))
+    # the timestamped variant over tiny and huge time steps
+    for steps in itertools.product([5e-324, 1e-310, 1e-162, 1.0, 1e150],
+                                   repeat=2):
+        for vals in itertools.product(XV[:6], repeat=2):
+            n += 1
+            t = S.TimestampWeightedTally("x")
+            try:
+                t.register(0.0, first[1])
+                ts = 0.0
+                for st, v in zip(steps, vals):
+                    ts += st
+                    t.register(ts, v)
+                t.end_observations(ts + steps[0])
+                for g in (t.weighted_mean, t.weighted_sum,
+                          t.weighted_variance, t.weighted_stdev):
+                    r = g()
+                if math.isnan(t.weighted_mean()) and \
+                        abs(first[1]) <= 1e150:
+                    viols.append(("extreme:time-average-is-nan",
+                                  [first[1]] + list(vals), list(steps)))
+            except Exception as ex:  # noqa
+                viols.append(("extreme:timestamped-raised:"
+                              + type(ex).__name__, [first[1]] + list(vals),
+                              list(steps)))
+    return n, viols[:60]
+
+
 def run(ctx):
     quick = ctx.tier == "quick"
     L = 3 if quick else 4
@@ -448,6 +527,19 @@ def run(ctx):
                           {"kind": "w", "variant": r["variant"],
                            "history": v[1]}, rank=len(v[1]))
     ctx.part("weighted histories", nodes=nodes, depth=L)
+    nx = 0
+    for n_, viols in common.pimap(extreme_worker,
+                                  [(w, v) for w in XW for v in XV]):
+        nx += n_
+        for v in viols:
+            ctx.violation("C10:%s" % v[0], "WeightedTally with extreme "
+                          "weights/values %s: %s" % (v[1], v[2:]),
+                          {"kind": "x", "first": v[1][0]
+                           if v[1] and isinstance(v[1][0], list) else None},
+                          rank=len(v[1]))
+    ctx.part("extreme magnitudes (totality)", sequences=nx,
+             weights=[repr(x) for x in XW], values=[repr(x) for x in XV])
+    nodes += nx
     K = 4 if quick else 5
     ttasks = [(v, k, re, f) for v in ("plain", "event", "notify", "duration")
               for k in range(K, 0, -1) for re in (False, True)
